@@ -105,4 +105,9 @@ def _no_native(*a, **k):
     raise NotImplementedError('no native meaning: checked deductively only')
 
 
-is_unbounded = pre_in_set = pre_same_fields = local = edge = old_edge = in_set = old_in_set = has_formula = old_has_formula = same_formula = is_range = _no_native
+is_unbounded = pre_in_set = pre_same_fields = local = edge = old_edge = in_set = old_in_set = has_formula = old_has_formula = same_formula = _no_native
+
+
+def is_range(d):
+    """the node is a range node (what the code tests with isinstance(.., _CellRange))"""
+    return type(d).__name__ in ('_CellRange', '_CycleCellRange')
